@@ -44,6 +44,26 @@ def mc_lang(run, name, depth, mode, emit, samplek, names=NAMES3, nv=3, simulate=
     return path, cases, res
 
 
+def mc_nest(run, binders, checkk=1):
+    """MC_Nest: the family of nested fixed points (every kind combination, bodies ranging over an enclosing value through a
+    quantifier, self-supporting inner bodies): TLC checks Ev = Canon(Sem) and emits the truth tables for the replay"""
+    d = fresh_dir(run.prop, "mc_nest%d" % binders)
+    names = ('CONSTANT NameSeq <- NS_aXY\nCONSTANT FixVars = {"X", "Y"}' if binders == 2
+             else 'CONSTANT NameSeq <- NS_aYXZ\nCONSTANT FixVars = {"X", "Y", "Z"}')
+    c = cfg({"NV": binders + 1, "Binders": binders, "Emit": True, "CheckK": checkk}, extra=names)
+    res = run_tlc("MC_Nest", c, d, timeout=3600)
+    run.add_tlc("mc_nest%d" % binders, res)
+    run.spec_must_hold("mc_nest%d" % binders, res)
+    cases = parse_cases(res.output)
+    path = os.path.join(d, "cases.ndjson")
+    with open(path, "w") as fh:
+        for cse in cases:
+            fh.write(json.dumps(cse) + "\n")
+    with open(os.path.join(d, "MC_Nest.out"), "w") as fh:
+        fh.write("\n".join(l for l in res.output.splitlines() if not l.startswith('<<"CASE"')))
+    return path, cases
+
+
 def harness_with_watchdog(sub, cases_path, stall=90):
     """Run a replay sub-command.  A hang of the code under test on a case the specification says terminates
     is data: the harness rewrites a progress file before every case; when it has not changed for `stall`
@@ -155,6 +175,10 @@ def c01(run):
     p3, cases3, res3 = mc_lang(run, "sim_lang_d3", 4 if t else 3, "lang", True, 8, simulate="num=%d" % (60 if t else 6), timeout=7200)
     if cases3:
         replay_lang(run, p3, "simulated_deep", {"C01"})
+    # nested fixed points (a sample of the families of MC_Nest; C06 replays all of them)
+    for binders, ck in ((2, 1 if t else 4), (3, 2 if t else 12)):
+        pn, cn = mc_nest(run, binders, ck)
+        replay_lang(run, pn, "nested_%d_binders" % binders, {"C01"})
     import checks_lang_trace
     checks_lang_trace.record_formulas(run, 30000 if t else 2500, {"C01"})
     run.exhaustive = True
@@ -282,6 +306,10 @@ def c06(run):
     for h in hangs:
         run.violation("fix:hang", "evaluation does not terminate on a monotone body: %r" % h["text"][:200],
                       {"mode": "formula-text", "text": h["text"], "tag": "hang"})
+    # nested fixed points: every formula of the two-binder family, and of the three-binder family (quick: a third)
+    for binders, ck in ((2, 1), (3, 1 if t else 3)):
+        pn, cn = mc_nest(run, binders, ck)
+        replay_lang(run, pn, "nested_%d_binders" % binders, {"C06", "C01"})
     if t:
         mc_lang(run, "mc_fix_d1_nv3", 1, "fix", False, 1, names='CONSTANT NameSeq <- NS_aXb\nCONSTANT FixVars = {"X"}', nv=3, timeout=7200)
     # library iterator fp(a, t): first fixed point of the sequence, number of calls
